@@ -1,6 +1,7 @@
 import QclibModel.Proofs.SchmidtIndex
 import QclibModel.Proofs.SchmidtRank
 import QclibModel.Proofs.SchmidtAlg
+import QclibModel.Proofs.SchmidtRankSrc
 /-
   C09 — Schmidt decomposition and composition are mutually inverse for any bipartition.
   Property theorems only; proofs live in Proofs/SchmidtIndex.lean (bit arithmetic),
@@ -81,6 +82,28 @@ theorem C09_axes_sorted (n : Nat) (P : List Nat) (hd : P.Nodup) (hlt : ∀ a ∈
   exact (hs.and hn).imp (fun ⟨h1, h2⟩ => by simp at h1; omega)
 
 example : sepAxes 4 ([3, 0, 2].map Int.ofNat) = some [0, 2, 3] := by decide
+
+/-- **C09 (source tie, rank rule).**  `Gen.SchmidtRank.effective_rank` and `low_rank_rank` are
+re-translated on every run from the current source of `qclib/entanglement.py`: the whole of
+`_effective_rank` (`sum(j > 10**-7 for j in singular_values)`; the float constant is folded by Python
+and emitted as the exact rational value `pyThreshold` of the binary64 it denotes, the singular values
+are a list of rationals — every double is one) and the statements of `low_rank_approximation` that
+compute `rank` (cap by the requested rank, `int(2 ** ceil(log2(·)))`).  For every list of values and
+every requested rank: the generated count equals the hand model `effRank` at that threshold, and,
+whenever the count is not `0` (Python: no `ValueError` from `log2(0)`), the generated rank is the hand
+model `rankRule` of `C09_pow2`.  An edit of the threshold, of the comparison, of the cap condition or
+of the rounding in the source breaks this proof. -/
+theorem C09_rank_src (lowRank : Int) (s : List Rat) :
+    Gen.SchmidtRank.effective_rank s = ((effRank pyThreshold s : Nat) : Int)
+    ∧ (effRank pyThreshold s ≠ 0 →
+        (rankRule lowRank (effRank pyThreshold s)).map (fun (r : Nat) => (r : Int))
+          = some (Gen.SchmidtRank.low_rank_rank lowRank s)) :=
+  ⟨effRank_src s, rankRule_src lowRank s⟩
+
+/-- Non-vacuity: a list with three values above `10**-7` (hypothesis of the second part), and the
+threshold really separates `1e-7`-sized values. -/
+example : effRank pyThreshold [3, 2, 1, 0, mkRat 1 100000000] = 3
+    ∧ Gen.SchmidtRank.low_rank_rank 0 [3, 2, 1, 0] = 4 ∧ Gen.SchmidtRank.low_rank_rank 1 [3, 2, 1, 0] = 1 := by decide
 
 /-- **C09 (power-of-two count).**  Whenever `low_rank_approximation` returns (`eff ≥ 1`), the rank
 is a power of two, it is the least power of two `≥ m` where `m = min(low_rank, eff)` for
